@@ -862,6 +862,18 @@ def x_instr_dump(co, opc, max_code=None, dup_lines=False):
                 res["positions_pp"] = [list(t) for t in c311.parse_positions(co.co_linetable, co.co_firstlineno)]
             except Exception as e:
                 res["positions_pp_err"] = "%s: %s" % (type(e).__name__, e)
+    try:
+        # the second, independent operand decoder inside xdis (used by the label finders)
+        if opc.version_tuple >= (3, 10):
+            unp = x.cross_dis.unpack_opargs_bytecode_310(code, opc)
+        elif opc.version_tuple >= (3, 6):
+            import xdis.wordcode as _wc
+            unp = _wc.unpack_opargs_wordcode(code, opc)
+        else:
+            unp = x.cross_dis.unpack_opargs_bytecode(code, opc)
+        res["unpacked"] = [[o, op, a] for o, op, a in unp]
+    except Exception as e:
+        res["unpacked_err"] = "%s: %s" % (type(e).__name__, e)
     if max_code is not None and len(code) > max_code:
         res["skipped"] = len(code)
         return res
